@@ -43,6 +43,10 @@ def classify_key(k):
         return "ok", f"tuple of fields (injective): `{T.show(k0)}`"
     if k[0] == 'attr' or k[0] == 'bv':
         return "ok", f"field projection: `{T.show(k0)}`"
+    if k[0] == 'call' and k[1] in (T.G('tuple'), T.G('list')) and len(k[2]) == 1 and not k[3]:
+        return classify_key(k[2][0])
+    if k[0] == 'map' and k[1][0] == 'lam' and k[1][1] == 1 and classify_key(k[1][2])[0] == 'ok' and classify_key(k[2])[0] == 'ok':
+        return "ok", f"sequence of field projections over a field (injective): `{T.show(k0)}`"
     if k[0] == 'call' and k[1][0] == 'attr' and k[1][2] in ('as_tuple',):
         return "ok", f"field tuple: `{T.show(k0)}`"
     if k[0] == 'call' and k[1] in (T.G('str'), T.G('repr')):
@@ -62,6 +66,18 @@ def eq_fields(program, cls_q):
             fields.add(n.attr)
     # dataclass-generated __eq__ would compare all fields - but an explicit __eq__ is what counts
     return eq, fields
+
+
+def key_fields(k):
+    """identifying fields of the bound object a key expression reads (x.id -> id, x.bounds.as_tuple() / (x.bounds.lower, ..) ->
+    bounds, tuple(map(.., x.propositions)) -> propositions, x.variable -> id and bounds)"""
+    out = set()
+    for x in T.walk(k):
+        if x[0] == 'attr' and x[1][0] == 'bv':
+            out.add(x[2])
+    if 'variable' in out:
+        out |= {'id', 'bounds'}
+    return out
 
 
 CONTROL_KEYS = [("hash(x)", "violation"), ("(x.id, x.bounds.lower, x.bounds.upper)", "ok"), ('f"{x.id}-{y.id}"', "violation"),
@@ -96,10 +112,20 @@ def obligations(ctx):
             continue
         for v in vals:
             st, text = classify_key(v)
+            need = {"key2": IDENT["puan.variable"], "key3": IDENT["puan.logic.plog.AtLeast"]}.get(hole)
+            if st == "ok" and need is not None:
+                missing = sorted(need - key_fields(v))
+                if missing:
+                    st, text = "violation", f"the key `{T.show(v)}` is injective on what it reads but ignores {missing}: two definitions " \
+                                            f"of one id that differ only there are counted as one"
             dig = hashlib.sha256(repr(v).encode()).hexdigest()[:8]
             obs.append(Ob(f"E7.key:{hole}", "E7.key-injective", where, st, f"{names[hole]}: {text}",
                           key=f"E7.key:{ERRORS}:{hole}:{dig}"))
-    # objects de-duplicated by the set() inside flatten(): their __eq__ must compare the identifying fields
+    # objects de-duplicated by the set() inside flatten(): their __eq__ must compare the identifying fields - unless the
+    # definition checks do not range over flatten() at all (proven by the contract of errors(): its reference ranges over
+    # _occurrences()) and their keys are adequate
+    keys_ok = all(o.status == "ok" for o in obs if o.rule == "E7.key-injective" and (o.id.endswith("key2") or o.id.endswith("key3")))
+    over_occurrences = r.status == "ok" and keys_ok and "puan.logic.plog.AtLeast._occurrences" in program.functions
     for cls_q, need in IDENT.items():
         eq, fields = eq_fields(program, cls_q)
         if eq is None:
@@ -112,7 +138,12 @@ def obligations(ctx):
         missing = sorted(need - covered)
         whr = f"{eq.file}:{eq.node.lineno} {eq.qualname}"
         ctx.touched.add(eq.qualname)
-        if missing:
+        if missing and over_occurrences:
+            obs.append(Ob(f"E7.eq:{cls_q}", "E7.set-element-eq", whr, "ok",
+                          f"{eq.qualname} compares only {sorted(fields)} (ignores {missing}), but the definition checks #2/#3 of errors() range "
+                          f"over _occurrences() - every occurrence, nothing merged - with keys that cover the identifying fields; whatever "
+                          f"flatten()'s set merges for check #4 and the cycle check are then two definitions of one id, which #2/#3 report"))
+        elif missing:
             obs.append(Ob(f"E7.eq:{cls_q}", "E7.set-element-eq", whr, "violation",
                           f"flatten() de-duplicates nodes with set(); {eq.qualname} compares only {sorted(fields)} and ignores {missing}: "
                           f"two different definitions of one id are merged before errors() sees them "
@@ -120,5 +151,24 @@ def obligations(ctx):
                           key=f"E7.eq:{eq.qualname}:ignores:{','.join(missing)}"))
         else:
             obs.append(Ob(f"E7.eq:{cls_q}", "E7.set-element-eq", whr, "ok", f"compares {sorted(fields)}"))
-    # flatten really de-duplicates through set(): (if it stops doing so the rule above is moot but harmless)
+    # hashes of the objects flatten() puts into its set: which fields they mix no longer matters for validation (the definition
+    # checks compare exact tuples), but a hash that depends on the identity of the object would keep equal nodes apart - a
+    # shared identical sub-proposition would then appear twice and check #4 would count its edges twice
+    for cls_q in ("puan.Bounds", "puan.variable", "puan.logic.plog.AtLeast"):
+        ci = program.cls(cls_q)
+        h = program.lookup_method(ci, "__hash__")
+        if h is None:
+            continue
+        ctx.touched.add(h.qualname)
+        ident = [ast.unparse(n)[:40] for n in ast.walk(h.node) if isinstance(n, ast.Call) and (
+            (isinstance(n.func, ast.Name) and n.func.id == "id") or
+            (isinstance(n.func, ast.Attribute) and n.func.attr == "__hash__" and not (isinstance(n.func.value, ast.Name) and n.func.value.id == "self")))]
+        whr = f"{h.file}:{h.node.lineno} {h.qualname}"
+        if ident:
+            obs.append(Ob(f"E7.hash:{cls_q}", "E7.hash-identity", whr, "violation",
+                          f"{h.qualname} depends on the identity of the object ({ident[0]}): equal nodes get different hashes, set() in "
+                          f"flatten() keeps both and a model that merely shares a sub-proposition is rejected by check #4",
+                          key=f"E7.hash:{h.qualname}:identity"))
+        else:
+            obs.append(Ob(f"E7.hash:{cls_q}", "E7.hash-identity", whr, "ok", "a function of the object's fields (no identity)"))
     return obs
